@@ -174,6 +174,7 @@ func genShape(rnd interface {
 	default:
 		sh.name = "on"
 		sh.clause = "ON"
+		sh.noSub = true // subqueries inside an ON condition: known finding, see known.go
 		sh.ids = "x0.id, x1.id"
 		sh.from = "FROM " + t.Name + " x0 CROSS JOIN " + u.Name + " x1"
 		sh.onFrom = "FROM " + t.Name + " x0 JOIN " + u.Name + " x1 ON "
@@ -408,7 +409,7 @@ func main() {
 }
 
 // coreDomain: the input classes kept out of the core exploration (each is replayed by classProbes).
-var coreDomain = g6blib.Domain{NoMixedInNum: true, NoFracOnInt: true, NoCIInList: true, NoDecKeyOnIntIndex: true, NoFracEqOnIndexedDec: true}
+var coreDomain = g6blib.Domain{NoMixedInNum: true, NoFracOnInt: true, NoCIInList: true, NoDecKeyOnIntIndex: true, NoFracEqOnIndexedDec: true, NoArithInListLeft: true, NoLikeOnCIFunc: true}
 
 func runCase(r *core.Run, i int, perCase int) {
 	rnd := r.Rand("tlp", i)
@@ -428,6 +429,10 @@ func runCase(r *core.Run, i int, perCase int) {
 		g.NoSubquery = sh.noSub
 		depth := 1 + rnd.Intn(3)
 		p := g.Bool(depth)
+		if why := rejected(p); why != "" {
+			r.Count("domain-rejected."+why, 1)
+			continue
+		}
 		evalPredicate(r, s, sc, sh, p, fmt.Sprintf("tlp/%d/%d", i, k))
 	}
 }
@@ -555,36 +560,10 @@ func evalPredicate(r *core.Run, s *core.Sess, sc *g6blib.Schema, sh *shape, p *g
 	if o.verdict != "violated" {
 		return
 	}
-	// known-finding matcher F9 (via=signature): [NOT] IN (subquery) negated into an anti-join that is
-	// executed as a merge join: rows whose IN value is NULL are returned as if NOT IN were TRUE. Matched only
-	// when the predicate has an IN subquery, a failing filter's plan shows a merge join, every discrepancy is
-	// "filter keeps rows whose select-list value is NULL", and the same case holds with merge joins disabled.
-	sig := "c05:" + sh.clause + ":" + o.mode + ":top=" + p.TopOp()
-	if f.inSub && o.extraOnlyNull && o.tlpOK == false {
-		merge := false
-		for _, k := range []string{"TRUE", "FALSE"} {
-			if strings.Contains(s.Plan(o.queries[k]), "MergeJoin") {
-				merge = true
-			}
-		}
-		if merge {
-			s.MustExec("SET @@SESSION.disable_merge_join = 1")
-			o2 := judge(s, sh, psql)
-			s.MustExec("SET @@SESSION.disable_merge_join = 0")
-			if o2.verdict == "held" {
-				sig = sigF9
-			}
-		}
-	}
+	sig, extra := classify(s, sc, sh, p, o, f)
 	w := witness()
-	if sig != sigF9 {
-		// minimise predicate and rows; the signature names the minimised failing input class and the failure mode
-		mp, msc, mo := minimize(s, sc, sh, p)
-		sig = "c05:" + sh.clause + ":" + mo.mode + ":" + mp.Shape()
-		w["minimized"] = map[string]any{"predicate": mp.SQL(), "setup": msc.Setup(), "queries": mo.queries, "results": mo.results, "mode": mo.mode}
-		if ks := matchKnown(sh, mp, msc, mo); ks != "" {
-			sig = ks
-		}
+	for k, v := range extra {
+		w[k] = v
 	}
 	w["signature"] = sig
 	r.Violation(sig, w)
